@@ -60,6 +60,10 @@ func runC10(tier string, r *rng) {
 		c10Store(c.n, c.tail, tier, r)
 	}
 	// the same server with its metrics switched on (a configuration, not another behaviour)
+	c10LatePrune = true
+	c10Store(80, 30, tier, r)
+	c10Store(40, 39, tier, r)
+	c10LatePrune = false
 	c10Metrics = true
 	c10Store(70, 69, tier, r)
 	c10Store(5, 3, tier, r)
@@ -129,6 +133,10 @@ func c10Moving(n, tail, grow int, origin, amount uint64) {
 
 var c10Metrics bool // the next c10Store builds its server WithMetrics
 
+// c10LatePrune: the next c10Store first SERVES the whole chain (every header is read through the store's caches),
+// and only then prunes [1, tail): what was pruned must be gone for the server, whatever is still cached.
+var c10LatePrune bool
+
 func c10Store(n, tail int, tier string, r *rng) {
 	ctx := context.Background()
 	mn, hosts, err := peers.NewNet(2)
@@ -136,7 +144,11 @@ func c10Store(n, tail int, tier string, r *rng) {
 		panic(err)
 	}
 	defer mn.Close()
-	st, chain := prunedStore(n, tail)
+	buildTail := tail
+	if c10LatePrune {
+		buildTail = 1
+	}
+	st, chain := prunedStore(n, buildTail)
 	defer st.Stop(ctx) //nolint:errcheck
 	rec := &peers.Recorder{Store: st}
 	sopts := []p2p.Option[p2p.ServerParameters]{p2p.WithNetworkID[p2p.ServerParameters](peers.NetworkID),
@@ -153,6 +165,22 @@ func c10Store(n, tail int, tier string, r *rng) {
 	}
 	defer srv.Stop(ctx) //nolint:errcheck
 
+	if c10LatePrune && n > 0 {
+		for o := 1; o <= n; o += 50 {
+			_, _ = peers.RawRequest(ctx, hosts[0], hosts[1].ID(), peers.Frame(&p2p_pb.HeaderRequest{Data: &p2p_pb.HeaderRequest_Origin{Origin: uint64(o)}, Amount: 50}), 3*time.Second)
+		}
+		for _, hh := range []int{1, tail - 1, tail, n} {
+			if hh >= 1 && hh <= n {
+				_, _ = peers.RawRequest(ctx, hosts[0], hosts[1].ID(), peers.Frame(&p2p_pb.HeaderRequest{Data: &p2p_pb.HeaderRequest_Hash{Hash: chain[hh-1].Hash()}, Amount: 1}), 3*time.Second)
+			}
+		}
+		if tail > 1 {
+			if err := st.DeleteRange(ctx, 1, uint64(tail)); err != nil {
+				panic(err)
+			}
+		}
+		rec.Take()
+	}
 	one := func(kind string, frame []byte, origin, amount uint64) {
 		rec.Take()
 		t0 := time.Now()
